@@ -143,6 +143,23 @@ func readAllBuf(r io.Reader, bufSize int) ([]byte, error) {
 	}
 	var out []byte
 	buf := make([]byte, bufSize)
+	if bufSize%4 == 1 {
+		// the way the muxer's handlers drain a reader: a few Read calls that may stop inside a
+		// part, then io.Copy (which prefers WriteTo / ReadFrom when the reader or writer has them)
+		for i := 0; i < 1+bufSize%3; i++ {
+			n, err := r.Read(buf)
+			out = append(out, buf[:n]...)
+			if err == io.EOF {
+				return out, nil
+			}
+			if err != nil {
+				return out, err
+			}
+		}
+		var rest bytes.Buffer
+		_, err := io.Copy(&rest, r)
+		return append(out, rest.Bytes()...), err
+	}
 	for i := 0; i < 10000000; i++ {
 		n, err := r.Read(buf)
 		out = append(out, buf[:n]...)
